@@ -265,6 +265,7 @@ type branch struct {
 	memoU    map[string][]byte
 	memoR    map[[2]uint64][]byte
 	maxSize  uint64
+	mu       sync.Mutex
 }
 
 func (b *branch) size() uint64 {
@@ -274,7 +275,7 @@ func (b *branch) size() uint64 {
 	return uint64(len(b.leaves))
 }
 
-func (b *branch) uniform(leaf []byte, n uint64) []byte {
+func (b *branch) uniformU(leaf []byte, n uint64) []byte {
 	if n == 1 {
 		return leaf
 	}
@@ -283,22 +284,22 @@ func (b *branch) uniform(leaf []byte, n uint64) []byte {
 		return v
 	}
 	s := splitPoint(n)
-	v := nodeHash(b.uniform(leaf, s), b.uniform(leaf, n-s))
+	v := nodeHash(b.uniformU(leaf, s), b.uniformU(leaf, n-s))
 	b.memoU[k] = v
 	return v
 }
 
 // rangeRoot is MTH(D[lo:hi]).
-func (b *branch) rangeRoot(lo, hi uint64) []byte {
+func (b *branch) rangeRootU(lo, hi uint64) []byte {
 	if hi == lo {
 		return emptyRoot()
 	}
 	if b.virtual {
 		if hi <= b.forkAt {
-			return b.uniform(b.ua, hi-lo)
+			return b.uniformU(b.ua, hi-lo)
 		}
 		if lo >= b.forkAt {
-			return b.uniform(b.ub, hi-lo)
+			return b.uniformU(b.ub, hi-lo)
 		}
 	}
 	if hi-lo == 1 {
@@ -309,9 +310,16 @@ func (b *branch) rangeRoot(lo, hi uint64) []byte {
 		return v
 	}
 	k := splitPoint(hi - lo)
-	v := nodeHash(b.rangeRoot(lo, lo+k), b.rangeRoot(lo+k, hi))
+	v := nodeHash(b.rangeRootU(lo, lo+k), b.rangeRootU(lo+k, hi))
 	b.memoR[key] = v
 	return v
+}
+
+// the memo tables make a branch stateful: the public entry points serialise
+func (b *branch) rangeRoot(lo, hi uint64) []byte {
+	b.mu.Lock()
+	defer b.mu.Unlock()
+	return b.rangeRootU(lo, hi)
 }
 
 func (b *branch) root(n uint64) []byte { return b.rangeRoot(0, n) }
@@ -321,22 +329,24 @@ func (b *branch) consistency(m, n uint64) [][]byte {
 	if m == n || m == 0 {
 		return [][]byte{}
 	}
-	return b.subproof(m, 0, n, true)
+	b.mu.Lock()
+	defer b.mu.Unlock()
+	return b.subproofU(m, 0, n, true)
 }
 
-func (b *branch) subproof(m, lo, hi uint64, complete bool) [][]byte {
+func (b *branch) subproofU(m, lo, hi uint64, complete bool) [][]byte {
 	n := hi - lo
 	if m == n {
 		if complete {
 			return [][]byte{}
 		}
-		return [][]byte{b.rangeRoot(lo, hi)}
+		return [][]byte{b.rangeRootU(lo, hi)}
 	}
 	k := splitPoint(n)
 	if m <= k {
-		return append(b.subproof(m, lo, lo+k, complete), b.rangeRoot(lo+k, hi))
+		return append(b.subproofU(m, lo, lo+k, complete), b.rangeRootU(lo+k, hi))
 	}
-	return append(b.subproof(m-k, lo+k, hi, false), b.rangeRoot(lo, lo+k))
+	return append(b.subproofU(m-k, lo+k, hi, false), b.rangeRootU(lo, lo+k))
 }
 
 func newExplicitBranch(name string, n int, forkFrom *branch, forkAt int) *branch {
